@@ -55,10 +55,11 @@ class NodeTC(Node):
 
 def _raise_selected(sel):
     # explicit chain: a symbolic index into a list of classes is unsupported
+    # the message contains format-string metacharacters on purpose
     for j in range(len(EXCS)):
         if sel == j:
-            raise EXCS[j]('injected fault')
-    raise EXCS[0]('injected fault')
+            raise EXCS[j]('injected fault {0} {name} }{ %s %(x)s', {'k': {1, 2}})
+    raise EXCS[0]('injected fault {0} {name} }{ %s %(x)s')
 
 
 def pretty_node(value, ctx):
@@ -88,25 +89,50 @@ def register():
 # tree specs: ['node', id, [children]] | ['nodetc', id, [children]] | ['tc', text, spec]
 # | ['list', [..]] | ['dict', [[key src, spec]..]] | ['int', n]
 
-def build(spec):
+def build(spec, memo=None):
+    if memo is None:
+        memo = {}
     k = spec[0]
-    if k == 'node':
-        return Node(spec[1], *[build(c) for c in spec[2]])
-    if k == 'nodetc':
-        return NodeTC(spec[1], *[build(c) for c in spec[2]])
+    if k in ('node', 'nodetc'):
+        o = (Node if k == 'node' else NodeTC)(spec[1], *[build(c, memo) for c in spec[2]])
+        memo[spec[1]] = (o, spec)
+        return o
+    if k == 'ref':                      # the very same object again (sharing, no cycle)
+        return memo[spec[1]][0]
     if k == 'tc':
-        return PKG.trailing_comment(build(spec[2]), spec[1])
+        return PKG.trailing_comment(build(spec[2], memo), spec[1])
     if k == 'c':
-        return PKG.comment(build(spec[2]), spec[1])
+        return PKG.comment(build(spec[2], memo), spec[1])
     if k == 'list':
-        return [build(c) for c in spec[1]]
+        return [build(c, memo) for c in spec[1]]
     if k == 'tuple':
-        return tuple(build(c) for c in spec[1])
+        return tuple(build(c, memo) for c in spec[1])
     if k == 'dict':
-        return {key: build(c) for key, c in spec[1]}
+        return {key: build(c, memo) for key, c in spec[1]}
     if k == 'int':
         return spec[1]
     raise ValueError(spec)
+
+
+def resolve_refs(spec, memo=None):
+    """The tree with every ['ref', id] replaced by the spec of node id (the
+    printers see an ordinary occurrence of that node)."""
+    if memo is None:
+        memo = {}
+    k = spec[0]
+    if k in ('node', 'nodetc'):
+        out = [k, spec[1], [resolve_refs(c, memo) for c in spec[2]]]
+        memo[spec[1]] = out
+        return out
+    if k == 'ref':
+        return memo[spec[1]]
+    if k in ('tc', 'c'):
+        return [k, spec[1], resolve_refs(spec[2], memo)]
+    if k in ('list', 'tuple'):
+        return [k, [resolve_refs(c, memo) for c in spec[1]]]
+    if k == 'dict':
+        return [k, [[key, resolve_refs(c, memo)] for key, c in spec[1]]]
+    return spec
 
 
 def preorder(spec, out):
@@ -126,21 +152,27 @@ def preorder(spec, out):
     return out
 
 
-def expected_src(spec, failed):
+def expected_src(spec, failed_occurrence, counter=None):
+    """Source of the expected output when the printer invocation number
+    ``failed_occurrence`` (1-based, pre-order; None = no fault) raised: that
+    occurrence alone is replaced by the repr, its children are not visited."""
+    if counter is None:
+        counter = [0]
     k = spec[0]
     if k in ('node', 'nodetc'):
-        if spec[1] == failed:
+        counter[0] += 1
+        if counter[0] == failed_occurrence:
             return 'NODE_%d' % spec[1]
         name = 'vf.props.c14.' + ('Node' if k == 'node' else 'NodeTC')
-        return '%s(%s)' % (name, ', '.join(expected_src(c, failed) for c in spec[2]))
+        return '%s(%s)' % (name, ', '.join(expected_src(c, failed_occurrence, counter) for c in spec[2]))
     if k in ('tc', 'c'):
-        return expected_src(spec[2], failed)
+        return expected_src(spec[2], failed_occurrence, counter)
     if k == 'list':
-        return '[' + ', '.join(expected_src(c, failed) for c in spec[1]) + ']'
+        return '[' + ', '.join(expected_src(c, failed_occurrence, counter) for c in spec[1]) + ']'
     if k == 'tuple':
-        return '(' + ', '.join(expected_src(c, failed) for c in spec[1]) + (',' if len(spec[1]) == 1 else '') + ')'
+        return '(' + ', '.join(expected_src(c, failed_occurrence, counter) for c in spec[1]) + (',' if len(spec[1]) == 1 else '') + ')'
     if k == 'dict':
-        return '{' + ', '.join('%r: %s' % (key, expected_src(c, failed)) for key, c in spec[1]) + '}'
+        return '{' + ', '.join('%r: %s' % (key, expected_src(c, failed_occurrence, counter)) for key, c in spec[1]) + '}'
     if k == 'int':
         return repr(spec[1])
 
@@ -173,12 +205,13 @@ class FaultCase(base.CaseBase):
     def __init__(self, params):
         super().__init__(params)
         register()
-        self.spec = params['spec']
+        self.rawspec = params['spec']
+        self.spec = resolve_refs(self.rawspec)
         self.slice = params.get('slice', 'default')
         self.order = preorder(self.spec, [])
         self.n = len(self.order)
         self.tc_ids = tc_nodes(self.spec, set())
-        self.value = build(self.spec)
+        self.value = build(self.rawspec)
         State.count, State.fault_at = 0, 0
         with warnings.catch_warnings():
             warnings.simplefilter('ignore')
@@ -196,7 +229,7 @@ class FaultCase(base.CaseBase):
                 if self.native:
                     text = pfbase.native_pformat(self.value, w, rw)
                 else:
-                    text = pfbase.stream_text(pfbase.sdocs(self.value, w, rw, False, traced_printers=True))
+                    text = pfbase.ptext(self.value, w, rw, traced_printers=True)
             except Exception as e:
                 exc = type(e).__name__
                 State.fault_at = 0
@@ -212,9 +245,11 @@ class FaultCase(base.CaseBase):
         State.fault_at = 0
         # which node failed: explicit chain keeps everything below concrete
         failed = None
+        failed_occ = None
         for j in range(self.n):
             if i == j + 1:
                 failed = self.order[j]
+                failed_occ = j + 1
                 break
         with NoTracing():
             describe = lambda: 'tree=%r fault at invocation %r (node %r), exception %s, w=%r\noutput:\n%s\nwarnings=%r' % (
@@ -233,7 +268,7 @@ class FaultCase(base.CaseBase):
                 got = ast.dump(ast.parse('(' + text + '\n)', mode='eval'))
             except SyntaxError:
                 return self.fail('C14:output-not-an-expression', describe)
-            want = ast.dump(ast.parse('(' + expected_src(self.spec, failed) + '\n)', mode='eval'))
+            want = ast.dump(ast.parse('(' + expected_src(self.spec, failed_occ) + '\n)', mode='eval'))
             if got != want:
                 return self.fail('C14:other-parts-of-output-changed', describe)
         # a following fault-free print is unaffected
@@ -402,6 +437,11 @@ TREES = [
     ('tc-not-accepting', ['list', [['tc', 'note', N(1, I(1))], N(2, I(2))]]),
     ('tc-nested', NT(1, ['tc', 'inner', NT(2, I(1))], NT(3))),
     ('commented', ['list', [['c', 'a comment', N(1, I(1))], N(2)]]),
+    # the same object occurring several times (sharing without a cycle)
+    ('shared-siblings', ['list', [N(1, I(1)), ['ref', 1], N(2)]]),
+    ('shared-nested', N(1, N(2, I(1)), ['list', [I(0), ['ref', 2]]])),
+    ('shared-in-dict', ['dict', [['a', N(1, N(2))], ['b', ['ref', 2]], ['c', ['ref', 1]]]]),
+    ('shared-tc', ['list', [['tc', 'note', NT(1, I(1))], ['ref', 1]]]),
 ]
 
 
